@@ -830,6 +830,29 @@ def mon_system(sc, r):
     return out
 
 
+# ------------------------------------------------------------------------------------------------ the timer primitive, in-process
+
+def run_timer(seed, tier):
+    """p_timer: the real PausableSleep on a paused tokio clock against Model/Unit.PSleep."""
+    from props import common
+    n = 400 if tier == "quick" else 40000
+    r = common.run_streams([("p_timer", [seed, n])])
+    items = [([b, args, idx], req, impl) for (b, args, idx, req, impl) in r.cases]
+    mism, _ = common.compare(items, None)
+    violations = []
+    for m in mism:
+        f = m["req"].split(" ")
+        ops = f[2].split(","); a = m["impl"].split(","); b = m["model"].split(",")
+        k = next((j for j, (x, y) in enumerate(zip(a, b)) if x != y), min(len(a), len(b)))
+        violations.append({"what": f"PausableSleep({f[1]} ms) after the operations {','.join(ops[:k + 1])} (a<ms> advance the clock, p pause, r resume, s<ms> reset, l reset to the last duration): "
+                                   f"{'fired' if a[k][:1] == 'f' else 'not fired'}/{'paused' if a[k][1:] == 'P' else 'running'}, expected {'fired' if b[k][:1] == 'f' else 'not fired'}/{'paused' if b[k][1:] == 'P' else 'running'} — time spent paused must not count, and a re-armed sleep must get its configured period" if k < len(a) and k < len(b) else f"PausableSleep: {m['impl']} vs {m['model']} on {m['req']}",
+                           "payload": {"stream": m["origin"][:2], "line_index": m["origin"][2], "request": m["req"], "impl": m["impl"], "spec": m["model"]}, "kind": "timer"})
+    return {"evaluations": len(items), "distinct_nontrivial": len({q for _, q, i in items if "f" in i}), "traces": len(items),
+            "rule": "p_timer: the real PausableSleep (guarded hook VerifSleep) on a current-thread runtime with a paused clock, 1-14 operations (advance the clock by 0-1000 ms, pause / resume legally, reset to a new duration, reset to the last duration) from initial durations 0-1000 ms; `fired` (one poll) and `is_paused` after every operation compared with Model/Unit.PSleep; non-trivial = the sleep fires at some point",
+            "samples": [f"{q}  =>  {i}" for (_, q, i) in items[:3]], "dist": {"timer:" + k: v for k, v in r.dist.items()},
+            "violations": violations, "broken": r.broken, "impl_failures": r.impl_failures}
+
+
 # ------------------------------------------------------------------------------------------------ running a family
 
 FAMILIES = {}
